@@ -180,6 +180,12 @@ def generate(run_seed):
         ent = {"linker": list(lp), "target": list(tp)}
         ent.update(ref)
         links.append(ent)
+        if profile == "restore" and "link" in ref and lnode["secs"] and rng.random() < 0.25:
+            # a linking Section of its own below this one: an own child that carries an include
+            inodes = paths_of(inc)
+            ip, _ = rng.choice(inodes)
+            links.append({"linker": list(lp) + [lnode["secs"][0]["name"]], "target": list(ip),
+                          "include": "/" + "/".join(ip), "nested": True})
         taken.append(lp)
         if "link" in ref:
             taken.append(tp)
@@ -369,7 +375,10 @@ def run_case(case):
             res.count("ops", op)
             lks = W.linkers()
             pre_outside = W.tree(W.doc, cut=[lk for lk, _, _ in lks])
-            pre_own = [(lk, [W.tree(s) for s in lk.sections if s.id in own_ids.get(lk.id, ())],
+            lk_objs = [lk for lk, _, _ in lks]
+            W.cut_inside = lk_objs        # an own child that is a linker itself is judged on its own
+            pre_own = [(lk, [W.tree(s, cut=lk_objs) for s in lk.sections
+                             if s.id in own_ids.get(lk.id, ())],
                         [W.tree(p) for p in lk.properties if p.id in own_ids.get(lk.id, ())])
                        for lk, _, _ in lks]
             vio = None
@@ -513,7 +522,7 @@ def check_finalized(W, lks, pre_outside, pre_own, restore):
         if tgt is None:
             return ("link.resolves", "the model cannot resolve the reference of /%s" %
                     "/".join(path_of(lk)))
-        now_s = [W.tree(s) for s in lk.sections]
+        now_s = [W.tree(s, cut=getattr(W, "cut_inside", ())) for s in lk.sections]
         now_p = [W.tree(p) for p in lk.properties]
         for now, own, tkids, what in ((now_s, own_s, list(tgt.sections), "Section"),
                                       (now_p, own_p, list(tgt.properties), "Property")):
@@ -556,7 +565,7 @@ def check_cleaned_after_edit(W, lks, pre_outside, pre_own, base_targets):
         return ("link.rest-untouched", "clean changed the document outside the linking Sections: %s"
                 % first_diff(_no_merged(pre_outside), _no_merged(post_outside)))
     for (lk, tgt, kind), (_, own_s, own_p) in zip(lks, pre_own):
-        now_s = [W.tree(s) for s in lk.sections]
+        now_s = [W.tree(s, cut=getattr(W, "cut_inside", ())) for s in lk.sections]
         now_p = [W.tree(p) for p in lk.properties]
         if now_s != own_s or now_p != own_p:
             return ("link.restored", "after clean /%s holds %r / %r, its own children are %r / %r" %
